@@ -1,3 +1,12 @@
 """More sections for Tables.lean. Each function gets the line writer `w`."""
 import extract_tables as T
 from extract_tables import chars, extra, lean_bool, nats, strs  # noqa: F401
+
+
+@extra
+def _sys(w):
+    import sys
+
+    w("-- interpreter constants")
+    w(f"def sysMaxsize : Nat := {sys.maxsize}")
+    w("")
